@@ -373,13 +373,14 @@ Proof.
     + eapply nodata_connerr; eauto.
     + unfold close_connection in Ec. apply requeue_all_nodata in Ec.
       rewrite Forall_forall in Ec. eapply Ec; eauto.
-  - destruct (find_query st (p_id p)) as [q|] eqn:Eq; [|inversion H; subst; destruct Ho].
+  - rewrite Fq in H. simpl in H.
+    destruct (p_qr p) eqn:Eqr; simpl in H; [|inversion H; subst; destruct Ho].
+    destruct (find_query st (p_id p)) as [q|] eqn:Eq; [|inversion H; subst; destruct Ho].
     destruct (find_query_some _ _ _ Eq) as [Hq Hid].
     destruct (same_questions cfg q p) eqn:Esq; simpl in H; [|inversion H; subst; destruct Ho].
-    rewrite Fc, Fq in H. simpl in H.
+    rewrite Fc in H. simpl in H.
     destruct (opt_z_eqb (q_conn q) (Some (cn_id cn))) eqn:Econn; simpl in H;
       [|inversion H; subst; destruct Ho].
-    destruct (p_qr p) eqn:Eqr; simpl in H; [|inversion H; subst; destruct Ho].
     destruct (cookie_validate cfg st q p sv s u) as [[[st1 outs1] v]| |] eqn:Ev; simpl in H;
       try discriminate.
     destruct v.
